@@ -10,7 +10,9 @@ round-trip hypothesis (`ExternalCodec`), exercised against the real libraries by
 import LinVerif.Generated.C14
 import LinVerif.Lemmas.C14Varint
 import LinVerif.Lemmas.C14TsdBytes
-import LinVerif.Model.FixedOffset
+import LinVerif.Lemmas.C14FixedOffset
+import LinVerif.Lemmas.C14Delta
+import LinVerif.Lemmas.C14Facts
 
 namespace LinVerif.Props.C14
 open LinVerif LinVerif.Bits LinVerif.Varint
@@ -407,7 +409,138 @@ theorem tsd_encoder_history_irrelevant (e1 e2 : Enc) (s : Nat) (ops : List EncOp
 theorem bit_reset_eq_fresh (w : Writer) (r : Reader) :
     w.reset [] = Writer.fresh ∧ r.reset = { Reader.fresh r.buf with idx := r.idx } := ⟨rfl, rfl⟩
 
-/-! ## 6. external codecs -/
+/-! ## 6. fixed-width offset table -/
+
+section FixedOffsetTable
+open LinVerif.FixedOffset
+
+/-- **fixedoffset_roundtrip.** Every non-empty list of offsets below 2^32 (increasing or not):
+`MarshalBinary` then `Unmarshal` on ANY decoder object (fresh, used, pooled), with arbitrary bytes
+following the table, returns those trailing bytes, the size, and `Get(i)` returns offset `i`
+for every index and nothing outside `[0, n)`. -/
+theorem fixedoffset_roundtrip (inc : Bool) (vs junk : List Nat) (d0 : FixedOffset.Dec)
+    (hne : vs ≠ []) (hlt : ∀ v ∈ vs, v < 2 ^ 32) (hlen : vs.length < 2 ^ 32) :
+    ∃ d, d0.unmarshal ((encOf inc vs).marshal ++ junk) = (.ok junk, d) ∧ d.sizeOf = vs.length ∧
+      (∀ i (hi : i < vs.length), d.get (i : Int) = some (vs[i] : Int)) ∧
+      (∀ i : Int, i < 0 ∨ i ≥ (vs.length : Int) → d.get i = none) := by
+  have hlt' : ∀ v ∈ vs, v < 4294967296 := fun v hv => by simpa using hlt v hv
+  have hm := maxNat_lt vs 4294967296 (by omega) hlt'
+  obtain ⟨hw1, hw4⟩ := minWidth_range (maxNat vs)
+  have hfit : ∀ v ∈ vs, v < 256 ^ uint32MinWidth (maxNat vs) :=
+    fun v hv => lt_pow_minWidth v (maxNat vs) (le_maxNat vs v hv) hm
+  refine ⟨{ block := body (uint32MinWidth (maxNat vs)) vs, width := (uint32MinWidth (maxNat vs) : Nat),
+            size := (vs.length : Int) }, ?_, ?_, ?_, ?_⟩
+  · rw [encOf_marshal inc vs hne hlt']
+    exact unmarshal_marshal d0 _ vs junk hw1 hw4 (by simpa using hlen)
+  · simp only [FixedOffset.Dec.sizeOf]
+    have : ¬ ((uint32MinWidth (maxNat vs) : Nat) : Int) = 0 := by omega
+    rw [if_neg this]
+  · intro i hi; exact get_body _ vs hw1 hw4 hfit i hi
+  · intro i hi; exact get_body_out _ vs hw1 hw4 i hi
+
+/-- **getBlock_correct.** For non-decreasing offsets that lie inside the data block, `GetBlock(i)`
+is the slice from offset `i` to offset `i+1` (to the end of the block for the last entry). -/
+theorem fixedoffset_getBlock_correct (inc : Bool) (vs junk data : List Nat) (d0 : FixedOffset.Dec)
+    (hne : vs ≠ []) (hlt : ∀ v ∈ vs, v < 2 ^ 32) (hlen : vs.length < 2 ^ 32)
+    (hmono : ∀ i (h : i + 1 < vs.length), vs[i] ≤ vs[i + 1]) (hbound : ∀ v ∈ vs, v ≤ data.length) :
+    ∃ d, d0.unmarshal ((encOf inc vs).marshal ++ junk) = (.ok junk, d) ∧
+      ∀ i (hi : i < vs.length), d.getBlock (i : Int) data
+        = .ok ((data.take ((vs[i + 1]?).getD data.length)).drop vs[i]) := by
+  have hlt' : ∀ v ∈ vs, v < 4294967296 := fun v hv => by simpa using hlt v hv
+  have hm := maxNat_lt vs 4294967296 (by omega) hlt'
+  obtain ⟨hw1, hw4⟩ := minWidth_range (maxNat vs)
+  have hfit : ∀ v ∈ vs, v < 256 ^ uint32MinWidth (maxNat vs) :=
+    fun v hv => lt_pow_minWidth v (maxNat vs) (le_maxNat vs v hv) hm
+  refine ⟨{ block := body (uint32MinWidth (maxNat vs)) vs, width := (uint32MinWidth (maxNat vs) : Nat),
+            size := (vs.length : Int) }, ?_, ?_⟩
+  · rw [encOf_marshal inc vs hne hlt']
+    exact unmarshal_marshal d0 _ vs junk hw1 hw4 (by simpa using hlen)
+  · intro i hi
+    exact getBlock_body _ vs hw1 hw4 hfit data i hi (hmono i) hbound
+
+/-- `Add`ing non-negative offsets one by one (non-decreasing when `ensureIncreasing`) is accepted and
+leaves the state `FromValues` leaves; so the two theorems above cover both ways of filling the table -/
+theorem fixedoffset_add_eq_fromValues (inc : Bool) (vs : List Nat)
+    (hs : inc = true → ∀ i (hi : i + 1 < vs.length), vs[i] ≤ vs[i + 1]) :
+    (FixedOffset.Enc.fresh inc).addAll (vs.map Int.ofNat) = .ok (encOf inc vs) := addAll_eq_encOf inc vs hs
+
+/-- stated guards: a negative offset and (with `ensureIncreasing`) a decreasing offset are rejected
+(the Go code panics) and leave the encoder unchanged -/
+theorem fixedoffset_add_guards (e : FixedOffset.Enc) (v : Int) :
+    (v < 0 → ∃ err, e.add v = .error err) ∧
+    (e.ensureIncreasing = true → e.values ≠ [] → e.values.getLast?.getD 0 > v → e.add v = .error .notIncreasing) := by
+  constructor
+  · intro hv
+    unfold FixedOffset.Enc.add
+    split
+    · exact ⟨_, rfl⟩
+    · simp [hv]
+  · intro h1 h2 h3
+    unfold FixedOffset.Enc.add
+    simp [h1, h2, h3]
+
+/-- stated guard: an empty table is written as NOTHING (not even a width byte) and the decoder
+rejects the empty input -/
+theorem fixedoffset_empty_guard (inc : Bool) (d0 : FixedOffset.Dec) :
+    (FixedOffset.Enc.fresh inc).marshal = [] ∧ (d0.unmarshal []).1 = .error .tooShort := by
+  constructor <;> simp [FixedOffset.Enc.marshal, FixedOffset.Enc.fresh, FixedOffset.Dec.unmarshal]
+
+/-- reuse: `Reset()` is the fresh encoder; `Unmarshal` overwrites every field it later reads -/
+theorem fixedoffset_reset_eq_fresh (e : FixedOffset.Enc) (d1 d2 : FixedOffset.Dec) (data : List Nat) :
+    e.reset = FixedOffset.Enc.fresh e.ensureIncreasing ∧ d1.unmarshal data = d2.unmarshal data := ⟨rfl, rfl⟩
+
+namespace Neg
+/-- outside the property's domain (offsets ≤ 2^32-1): the width is computed from `uint32(max)`,
+so an offset of 2^32 is silently stored as 0 -/
+theorem fixedoffset_truncates_at_two_pow_32 :
+    (encOf false [4294967296]).marshal = [1, 1, 0] := by decide +kernel
+end Neg
+
+end FixedOffsetTable
+
+/-! ## 7. delta bit packing -/
+
+section Delta
+open LinVerif.DeltaPack
+
+/-- **delta_roundtrip.** Every non-empty list of `int32` values (any differences, including those
+that overflow `int32`): add them to an encoder that is ready for a new sequence (fresh or `Reset`),
+take `Bytes()`, `Reset` ANY decoder object with them: it announces exactly `length` values,
+`Next()` returns them in order, and `HasNext()` is false afterwards. -/
+theorem delta_roundtrip (e0 : DeltaPack.Enc) (d0 : DeltaPack.Dec) (v0 : Int) (rest : List Int)
+    (hc : e0.Clean) (hv0 : -(2 ^ 31 : Int) ≤ v0 ∧ v0 < 2 ^ 31)
+    (hrest : ∀ v ∈ rest, -(2 ^ 31 : Int) ≤ v ∧ v < 2 ^ 31) (hlen : rest.length < 2 ^ 31 - 1) :
+    (d0.reset ((e0.addAll (v0 :: rest)).bytes).1).count = ((rest.length + 1 : Nat) : Int) ∧
+    ∃ d', DeltaPack.Dec.nextN (rest.length + 1) (d0.reset ((e0.addAll (v0 :: rest)).bytes).1) = (v0 :: rest, d') ∧
+      d'.hasNext = false :=
+  delta_roundtrip_core e0 d0 v0 rest hc (by simpa [I32] using hv0)
+    (fun v hv => by simpa [I32] using hrest v hv) (by simpa using hlen)
+
+/-- both ways of obtaining an encoder satisfy the precondition of `delta_roundtrip` -/
+theorem delta_fresh_and_reset_are_clean (e : DeltaPack.Enc) : DeltaPack.Enc.fresh.Clean ∧ e.reset.Clean :=
+  ⟨DeltaPack.Enc.fresh_clean, DeltaPack.Enc.reset_clean e⟩
+
+/-- `Reset()` does NOT restore the constructor's state: `minDelta` is `MaxInt32` after `Reset` and 0
+in a new encoder. The bytes of the two differ; both decode to the same values (`delta_roundtrip`). -/
+theorem delta_reset_ne_fresh : DeltaPack.Enc.fresh.reset ≠ DeltaPack.Enc.fresh ∧
+    ((DeltaPack.Enc.fresh.addAll [7, 5]).bytes).1 ≠ ((DeltaPack.Enc.fresh.reset.addAll [7, 5]).bytes).1 := by
+  decide +kernel
+
+/-- the decoder's `Reset(buf)` overwrites every field it later reads -/
+theorem delta_decoder_reset_ignores_state (d1 d2 : DeltaPack.Dec) (buf : List Nat) : d1.reset buf = d2.reset buf := by
+  simp [DeltaPack.Dec.reset, Reader.setBuf, Reader.reset]
+
+/-- stated guard: the empty sequence is encoded as "first value 0, no deltas" and decodes to ONE
+spurious value 0 (callers never encode an empty sequence) -/
+theorem delta_empty_guard :
+    (DeltaPack.Enc.fresh.bytes).1 = [0, 0, 0, 0] ∧
+    (DeltaPack.Dec.fresh [0, 0, 0, 0]).hasNext = true ∧
+    (DeltaPack.Dec.nextN 1 (DeltaPack.Dec.fresh [0, 0, 0, 0])).1 = [0] := by
+  decide +kernel
+
+end Delta
+
+/-! ## 8. external codecs -/
 
 /-- roaring bitmap (`MarshalBinary` / `FromBuffer`) and snappy (`Writer` / `Reader`): external
 libraries, modelled by their contract only. The harness exercises the contract on the real
@@ -423,7 +556,7 @@ theorem external_roundtrip {α : Type} (c : ExternalCodec α) (x : α) : c.decod
 
 example : ExternalCodec (List Nat) := { encode := id, decode := some, roundtrip := fun _ => rfl }
 
-/-! ## 7. ties to the regenerated facts -/
+/-! ## 9. ties to the regenerated facts -/
 
 theorem firstValueLen_tie : Xor.firstValueLen = Generated.C14.firstValueLen := rfl
 theorem blockSizeAdjustment_tie : Xor.blockSizeAdjustment = Generated.C14.blockSizeAdjustment := rfl
@@ -436,5 +569,55 @@ def tableWidth : List (Nat × Nat) → Nat → Nat → Nat
 theorem uint32MinWidth_tie (v : Nat) :
     FixedOffset.uint32MinWidth v = tableWidth Generated.C14.uint32MinWidthTable Generated.C14.uint32MinWidthDefault v := by
   simp [FixedOffset.uint32MinWidth, tableWidth, Generated.C14.uint32MinWidthTable, Generated.C14.uint32MinWidthDefault]
+
+/-- the zig-zag formulas as written in encoding.go (shifts, xor, conversions) are the model's -/
+theorem zigzag_formula_tie (x : Int) (h1 : -(2 ^ 63 : Int) ≤ x) (h2 : x < (2 ^ 63 : Int)) (v : Nat) (hv : v < 2 ^ 64) :
+    Generated.C14.zigZagEncode x = (zigzagEnc x : Int) ∧ Generated.C14.zigZagDecode (v : Int) = zigzagDec v :=
+  ⟨zigZagEncode_tie x (by simpa using h1) (by simpa using h2), zigZagDecode_tie v (by simpa using hv)⟩
+
+/-! Step orders and re-initialised fields the models mirror (a reordering / a dropped field in the
+source re-opens the obligation by name). -/
+
+theorem tsd_encoder_reset_calls_expected :
+    Generated.C14.tsdEncoderResetCalls = ["bitBuffer.Reset", "bitWriter.Reset", "values.Reset", "timeBitBuf.Reset"] ∧
+    Generated.C14.tsdEncoderRestWithStartTimeCalls = ["e.Reset"] ∧
+    Generated.C14.tsdEncoderRestWithStartTimeFields = ["startTime", "count", "err"] := ⟨rfl, rfl, rfl⟩
+
+theorem tsd_encoder_bytes_calls_expected :
+    Generated.C14.tsdEncoderBytesCalls = ["FlushFunc", "timeBitBuf.Reset", "stream.PutUint16", "stream.PutUint16",
+      "timeBitBuf.Write", "bitBuffer.Bytes", "timeBitBuf.Write", "timeBitBuf.Bytes"] := rfl
+
+theorem tsd_decoder_reset_calls_expected :
+    Generated.C14.tsdDecoderResetCalls = ["len", "fmt.Errorf", "d.reset", "LittleEndian.Uint16", "LittleEndian.Uint16",
+      "buf.SetIdx", "reader.Reset"] ∧
+    Generated.C14.tsdDecoderPrivateResetCalls = ["bufioutil.NewBuffer", "bit.NewReader", "NewXORDecoder",
+      "values.Reset", "buf.SetBuf"] ∧
+    Generated.C14.tsdDecoderHasValueWithSlotCalls = ["d.HasValue"] := ⟨rfl, rfl, rfl⟩
+
+theorem xor_reset_fields_expected :
+    Generated.C14.xorEncoderResetFields = ["previousVal", "leading", "trailing", "first", "err"] ∧
+    Generated.C14.xorDecoderResetFields = ["first", "leading", "trailing", "err", "val"] := ⟨rfl, rfl⟩
+
+theorem xor_write_calls_expected :
+    Generated.C14.xorEncoderWriteCalls = ["bw.WriteBits", "bw.WriteBit", "bw.WriteBit", "bits.LeadingZeros64",
+      "bits.TrailingZeros64", "bw.WriteBit", "uint", "bw.WriteBits", "bw.WriteBit", "uint64", "bw.WriteBits",
+      "uint64", "bw.WriteBits", "uint", "bw.WriteBits"] := rfl
+
+theorem delta_calls_expected :
+    Generated.C14.deltaEncoderBytesCalls = ["uint32", "buffer.Reset", "len", "int32", "sw.PutVarint32", "uint32",
+      "bits.LeadingZeros32", "byte", "sw.PutByte", "int64", "ZigZagEncode", "int64", "sw.PutVarint64",
+      "sw.PutVarint32", "uint64", "bw.WriteBits", "bw.Flush", "buffer.Bytes"] ∧
+    Generated.C14.deltaEncoderResetCalls = ["buffer.Reset", "sw.Reset", "bw.Reset", "int32"] ∧
+    Generated.C14.deltaEncoderResetFields = ["hasFirst", "first", "previous", "minDelta", "deltas[:0]"] ∧
+    Generated.C14.deltaDecoderResetCalls = ["sr.Reset", "sr.ReadVarint32", "sr.ReadByte", "int", "sr.ReadVarint64",
+      "uint64", "ZigZagDecode", "int32", "sr.ReadVarint32", "sr.Position", "buf.SetBuf", "br.Reset"] :=
+  ⟨rfl, rfl, rfl, rfl⟩
+
+theorem fixedoffset_calls_expected :
+    Generated.C14.fixedOffsetWriteCalls = ["len", "e.width", "uint8", "writer.Write", "len", "uint64",
+      "binary.PutUvarint", "writer.Write", "uint32", "LittleEndian.PutUint32", "writer.Write"] ∧
+    Generated.C14.fixedOffsetEncoderResetFields = ["max", "values[:0]"] ∧
+    Generated.C14.fixedOffsetDecoderUnmarshalFields = ["offsetsBlock[:0]", "width", "size", "width", "size",
+      "offsetsBlock"] := ⟨rfl, rfl, rfl⟩
 
 end LinVerif.Props.C14
